@@ -123,6 +123,8 @@ pub struct Judged {
     pub emu_ccr: u8,
     pub emu_pc: u32,
     pub msgs: Vec<String>,
+    /// every byte of guest memory that differs from the baseline after the step (code and patches included)
+    pub mem_diff: BTreeMap<u32, u8>,
 }
 
 pub struct PreImage {
@@ -426,5 +428,6 @@ pub fn judge(emu: &mut Emu, case: &StepCase, asp: &Aspects, open_quirks: &[Quirk
         emu_ccr: obs.ccr,
         emu_pc: obs.pc,
         msgs: obs.msgs,
+        mem_diff: d_emu,
     }
 }
